@@ -444,6 +444,17 @@ impl ServerSim {
                     _ => 3,
                 }
             },
+            // fd_high 3.. = the process holds many other descriptors: free numbers are far apart
+            fd_stride: match case.fd_high {
+                3 => 64,
+                4 => 16,
+                5 => 256,
+                6 => 2,
+                7 => 1024,
+                8 => 32,
+                9 => 4096,
+                _ => 1,
+            },
         });
         let prop = flags.prop;
         let built = catch_unwind(AssertUnwindSafe(|| -> Result<(HttpServer, Option<EventFd>, Option<EventFd>), String> {
